@@ -24,7 +24,9 @@
     * composed with C01World (`World.sent = (World.submitted cfg evs).flatten`, the model's transport taking whole
       packets): under ANY writer oracle the bytes on the wire are a prefix of the model's `sent`, all of it once every
       write has completed (`any_transport_yields_the_models_wire`), and the mock transports of the correspondence run
-      (`wr=all|one|pend|pendone`) are such oracles (`mock_transport_writes_everything`).
+      (`wr=all|one|pend|pendone`) are such oracles (`mock_transport_writes_everything`); a transport with a byte budget
+      (`werr=`, `wzero=`) leaves exactly the first `L` bytes of the packet, as `World.writeBytes` does
+      (`budgeted_transport_takes_the_budget`, `exhausted_transport_takes_nothing`).
 -/
 import PosterModel.Lemmas.TxStream
 import PosterModel.Properties.C01World
@@ -218,7 +220,27 @@ theorem mock_transport_writes_everything (one pend : Bool) (buf : Bytes) :
     cases e <;> simp [WEv.isFault] at this ⊢
   · exact mockEvs_accepts one pend buf.length
 
+/-- **A transport with a byte budget** (the harness's `werr=<n>` / `wzero=<n>`: it takes `L` more bytes, then fails): the
+    bytes on the wire are the first `L` bytes of the packet and the write fails — what `World.writeBytes` puts on the wire
+    (`bs.take k`) when the budget does not cover the packet. -/
+theorem budgeted_transport_takes_the_budget (bs : Bytes) (L : Nat) (fault : WEv) (hf : fault = .err ∨ fault = .zero)
+    (tr : List WEv) (h0 : 0 < L) (hL : L < bs.length) :
+    (writeAll bs (.accept (L - 1) :: fault :: tr)).1.acc = bs.take L ∧
+    (writeAll bs (.accept (L - 1) :: fault :: tr)).1.out = .err := by
+  have hne : bs ≠ [] := by intro h; simp [h] at hL
+  have e : L - 1 + 1 = L := by omega
+  have hnl : ¬ bs.length ≤ L := by omega
+  rcases hf with rfl | rfl <;> simp [writeAll, hne, e, hnl]
+
+/-- the budget already used up: nothing of the packet reaches the wire -/
+theorem exhausted_transport_takes_nothing (bs : Bytes) (fault : WEv) (hf : fault = .err ∨ fault = .zero) (tr : List WEv)
+    (hne : bs ≠ []) :
+    (writeAll bs (fault :: tr)).1.acc = [] ∧ (writeAll bs (fault :: tr)).1.out = .err := by
+  rcases hf with rfl | rfl <;> simp [writeAll, hne]
+
 /-! ## non-vacuity: concrete runs -/
+
+example : (writeAll [1, 2, 3, 4] [.accept 1, .zero]).1.acc = [1, 2] := by decide
 
 /-- a PINGREQ and a PUBACK through a transport that takes one byte, delays, takes the rest, delays, takes one byte, fails: the PINGREQ is whole, the
     PUBACK a proper prefix -/
@@ -251,3 +273,5 @@ end Poster
 #print axioms Poster.wire_frames_to_the_completed_packets
 #print axioms Poster.any_transport_yields_the_models_wire
 #print axioms Poster.mock_transport_writes_everything
+#print axioms Poster.budgeted_transport_takes_the_budget
+#print axioms Poster.exhausted_transport_takes_nothing
